@@ -79,6 +79,11 @@ func (e *pathEnv) forget(v ssa.Value) {
 	if e.bind != nil {
 		delete(e.bind, v)
 	}
+	for k, c := range e.cells {
+		if c == v {
+			delete(e.cells, k)
+		}
+	}
 }
 
 func (e *pathEnv) resolve(v ssa.Value) ssa.Value {
@@ -404,19 +409,20 @@ func flagCell(a *ssa.Alloc) bool {
 	return okUse(a, 0)
 }
 
-// store records a store on the path: a constant into a flag cell is remembered, anything else
-// into it forgets the cell.
+// store records a store on the path into a flag cell.
 func (e *pathEnv) store(st *ssa.Store) {
 	addr := e.resolve(st.Addr)
 	a, ok := addr.(*ssa.Alloc)
 	if !ok {
 		return
 	}
-	if c, isC := e.resolve(st.Val).(*ssa.Const); isC && flagCell(a) {
+	if flagCell(a) {
+		// a constant, or any value of the path (the cell then stands for that value until it
+		// is stored again or the value is computed anew: see forget)
 		if e.cells == nil {
 			e.cells = map[ssa.Value]ssa.Value{}
 		}
-		e.cells[a] = c
+		e.cells[a] = e.resolve(st.Val)
 		return
 	}
 	if e.cells != nil {
